@@ -674,6 +674,9 @@ func ruleC01R8(c *Ctx) {
 // is not accepted: its completeness is an invariant over histories this analysis does not prove.
 func init() {
 	register("C01", "C01.R9", ruleC01R9)
+	// routing: a record is appended to the buffer that GetOrCreate returned for THIS record's keys — a remembered buffer
+	// (last key set, hot entry) routes by history (seed c06f)
+	register("C06", "C01.R9", ruleC01R9)
 }
 
 func ruleC01R9(c *Ctx) {
